@@ -8,7 +8,7 @@ import umap, umap.layouts as L, umap.umap_ as U
 RULE = ("(a) selection logic: (random_state, n_jobs) grid -> n_jobs after fit / ValueError and the `parallel` argument reaching the kernel selector for fit, transform, update, "
         "vs resolve_jobs / parallel_flag in Coq (exact); (b) source scan (ast): every numba.prange loop of the package is classified own-cell / disjoint-chunk / guarded-racy and the "
         "racy ones must be compiled only under the `parallel` flag, every call site passing `self.random_state is None` or False; (c) schedule exploration: fresh subprocesses with "
-        "NUMBA_NUM_THREADS in {1,2,4,16} (thorough: 8 values) each run seeded fits (exact / NN-descent, n_jobs -1/1/4, warm process, spectral/random/pca init, haversine output, densMAP) "
+        "NUMBA_NUM_THREADS in {1,2,4,16} (thorough: 8 values), plus processes that start with an unseeded fit (3 and 8 threads), each run seeded fits (exact / NN-descent, n_jobs -1/1/4, warm process, spectral/random/pca init, haversine output, densMAP) "
         "and report sha256 of graph_, embedding_, transform(Y); all digests must agree across processes, n_jobs and warm/fresh. Non-trivial: every subprocess configuration.")
 
 GUARDED = {"_optimize_layout_euclidean_single_epoch", "_optimize_layout_euclidean_densmap_epoch_init", "_optimize_layout_aligned_euclidean_single_epoch",
@@ -97,6 +97,11 @@ def run(ctx):
         env = dict(env0, NUMBA_NUM_THREADS=str(t), OMP_NUM_THREADS=str(t))
         procs.append((t, subprocess.Popen([sys.executable, os.path.join(VERIF, "harness", "c06_worker.py"), str(seed), ctx.tier],
                                           stdout=subprocess.PIPE, stderr=subprocess.PIPE, text=True, env=env)))
+    # processes whose first action is an unseeded fit + transform (anything cached or left behind by it must not leak into seeded results)
+    for t in ([3, 8] if quick else [2, 3, 5, 8, 16]):
+        env = dict(env0, NUMBA_NUM_THREADS=str(t), OMP_NUM_THREADS=str(t))
+        procs.append((1000 + t, subprocess.Popen([sys.executable, os.path.join(VERIF, "harness", "c06_worker.py"), str(seed), ctx.tier, "warmfirst"],
+                                                 stdout=subprocess.PIPE, stderr=subprocess.PIPE, text=True, env=env)))
     # ---- (a) selection logic ---------------------------------------------------------------------------------------------
     X = np.random.RandomState(5).normal(size=(30, 3)).astype(np.float32)
     grid = [(rs_, nj) for rs_ in (None, 7, np.random.RandomState(3)) for nj in (-2, -1, 0, 1, 4)]
@@ -177,13 +182,13 @@ def run(ctx):
     ref_t = min(results) if results else None
     for t, r in results.items():
         for cfg, dig in r.items():
-            if cfg == "threads": continue
-            ctx.tag(("sched", t, cfg), ["threads=%d" % t, cfg])
+            if cfg in ("threads", "warmfirst"): continue
+            ctx.tag(("sched", t, cfg), ["threads=%d%s" % (t % 1000, "_after_unseeded_fit" if t >= 1000 else ""), cfg])
             ctx.traces += 1
             refd = results[ref_t][cfg]
             for key in ("graph", "embedding", "transform"):
                 if key in dig and dig[key] != refd.get(key):
-                    ctx.fail("seeded_fit:%s_differs_across_thread_counts:%s" % (key, cfg), "%s digest with %d threads differs from %d threads" % (key, t, ref_t),
+                    ctx.fail("seeded_fit:%s_differs_across_thread_counts:%s" % (key, cfg), "%s digest with %d threads%s differs from %d threads" % (key, t % 1000, " (process started with an unseeded fit)" if t >= 1000 else "", ref_t),
                              dict(config=cfg, threads=[ref_t, t], seed=seed, digests=[refd.get(key), dig[key]], how="python harness/c06_worker.py %d %s under NUMBA_NUM_THREADS" % (seed, ctx.tier)))
             if "transform_again" in dig and dig["transform_again"] != dig["transform"]:
                 ctx.fail("seeded_transform:not_repeatable:%s" % cfg, "two transform calls on the same data differ (threads %d)" % t, dict(config=cfg, threads=t, seed=seed))
